@@ -20,8 +20,7 @@ META = {
             "(failing ones included) about a Gallina model of ExpressionManager; the model (with a concrete model of "
             "TypeChecker's verdict) is tied to expression.py/fnode.py by replaying random construction histories.",
     "note": "Trusted: Coq kernel/vm_compute, harness serialiser. No axioms. Outside the model: inexact floats, Int(True), "
-            "timing/presence/dot/quantifier nodes, bounded fluent types, non-integral int/int point quotients (float path "
-            "of TypeChecker.walk_div, C15).",
+            "timing/presence/dot/quantifier nodes, bounded fluent types.",
 }
 
 OPS = {"BOOL_CONSTANT": 0, "INT_CONSTANT": 1, "REAL_CONSTANT": 2, "FLUENT_EXP": 3, "PARAM_EXP": 4, "OBJECT_EXP": 5,
@@ -362,7 +361,9 @@ class Gen:
                     return ("bin", opn, self.pick("user", 0), self.pick("user", 0))
                 if s < 0.93:
                     return ("bin", opn, self.pick("bool", 0), self.pick("bool", 0))     # raises: use Iff
-                return ("bin", opn, self.pick("num", 0), self.pick(rng.choice(["user", "bool"]), 0))
+                if s < 0.97:
+                    return ("bin", opn, self.pick("num", 0), self.pick(rng.choice(["user", "bool"]), 0))
+                return ("bin", opn, self.pick("user", 0), self.pick(rng.choice(["num", "bool"]), 0))
             if opn == "Div":
                 for _ in range(20):
                     a, b = self.pick("num"), self.pick("num")
@@ -370,11 +371,6 @@ class Gen:
                         zs = [i for i in self.pool["num"] if (point_of(self.nodes[i]) or (0, 1))[1] == 0]
                         b = ("node", rng.choice(zs)) if zs and rng.random() < 0.5 else rng.choice(
                             [("int", 0), ("frac", 0, 3), ("float", 0, 1), ("str", "0", 0, 1, True), ("str", "0.0", 0, 10, False)])
-                    pa, pb = self.arg_point(a), self.arg_point(b)
-                    # int/int point quotient that is not an integer: TypeChecker.walk_div goes through a float
-                    # (C15 territory); outside this model
-                    if pa and pb and pa[0] and pb[0] and pb[1] != 0 and (pa[1] / pb[1]).denominator != 1:
-                        continue
                     return ("bin", opn, a, b)
                 return ("bin", "Minus", self.pick("num"), self.pick("num"))
             return ("bin", opn, self.pick("num"), self.pick("num"))
@@ -507,7 +503,7 @@ def run(ctx):
     for i in bad:
         where = ctx.coq_show("first_diff (model_obs c) (c_obs c) 0%nat", imports=imports,
                              preamble=pre + "Definition c := %s.\n" % cases[i], timeout=600)
-        model = ctx.coq_show("(length (tbl (model_final c)), next_id (model_final c))", imports=imports,
+        model = ctx.coq_show("(List.length (tbl (model_final c)), next_id (model_final c))", imports=imports,
                              preamble=pre + "Definition c := %s.\n" % cases[i], timeout=600)
         # the property itself fails here only if the Python-side oracle saw it (reported above)
         ctx.fail("corr", "construction history: implementation and model disagree (corr:C16:create_node/constructors) "
@@ -528,5 +524,4 @@ def run(ctx):
     }, "proof", assumptions=[
         "fluent/parameter types are bool, unbounded int/real or user types (point-or-unbounded numeric types)",
         "numeric literals are ints, Fractions, exact small binary floats and decimal/fraction strings",
-        "Div of two int-typed points with a non-integral quotient is not generated (float path of walk_div, C15)",
-        "Equals(user-typed, non-user) is not generated (asymmetric acceptance, DESIGN #22, C15)"])
+        ])
